@@ -122,8 +122,11 @@ package standard
 //@ loop #2
 //@ invariant [range] 0 <= _n && _n <= len(generation.participants) && len(allParticipants) == len(generation.participants)
 //@ loop #3
-//@ invariant true
+//@ invariant [range] 0 <= _n && _n <= len(generation.participants)
+//@ invariant [present] forall k int :: 0 <= k && k < _n ==> generation.participants[k].ID in generation.sharedSecrets
 //@ loop #4
-//@ invariant [agg] len(aggregateVVec) == generation.threshold && fresh(aggregateVVec)
+//@ invariant true
 //@ loop #5
+//@ invariant [agg] len(aggregateVVec) == generation.threshold && fresh(aggregateVVec)
+//@ loop #6
 //@ invariant [range] 0 <= _n && _n <= len(sharedVVec) && len(aggregateVVec) == generation.threshold && fresh(aggregateVVec)
